@@ -22,6 +22,7 @@ import LMV.Driver.Util
     c17create    <obs> <alpha> <n> <item hex | - | #>*n
     c17stripe    <obs> <alpha> <text hex | ->
     c17load      <init obs> <file kind> <format hex> <protein 0|1> <n> (<record kind> <record obs>)*n
+                 file kind := path | missing | binary | chunked | boundary | text | bytearray | memoryview | noread
     c17cminit    <alpha> <column>*K        column := - | # | <n> <int | x>*n       (exact answer)
     c17sminit    <alpha> <pyarg> <column>*K     column := - | # | <n> <bits | x>*n  (exact answer)
 -/
@@ -137,7 +138,12 @@ def handle (toks : List String) : String :=
   | "c17stripe" :: obs :: alpha :: text :: _ => admissible obs (stripe (tagOf alpha) (unhex text))
   | "c17load" :: obs :: kind :: format :: prot :: n :: rest =>
     let file : FileArg := match kind with
-      | "path" => .path true | "missing" => .path false | "binary" => .binary | "text" => .text | _ => .noRead
+      | "path" => .path true | "missing" => .path false | "text" => .text
+      -- file-like objects that are not io classes: `read(0)` returns `bytes` (whatever the size of the
+      -- chunks later reads return) / returns `bytearray`, `memoryview` (not `bytes`: refused like text)
+      | "binary" | "chunked" | "boundary" => .binary
+      | "bytearray" | "memoryview" => .text
+      | _ => .noRead
     let fmt := unhexStr format
     let first := admissible obs (loaderInit file fmt (prot == "1"))
     let rec recs : Nat → List String → List String → List String
